@@ -95,6 +95,7 @@ struct DocGen {
         if (c.ns && g.chance(1, 8)) s += " p1:x=\"" + std::to_string(g.below(9)) + "\"";
         if (c.ns && g.chance(1, 12)) s += " xml:lang=\"" + std::string(g.chance(1, 2) ? "en" : "fr-CA") + "\"";
         if (c.ns && g.chance(1, 14)) s += " xmlns:p3=\"urn:x-ns3-" + std::to_string(g.below(3)) + "\"";
+        if (c.ns && c.rebind && g.chance(1, 6)) s += " xmlns:p1x=\"urn:x-ns1x\" xmlns:p=\"urn:x-p\"";      // prefixes that begin like, or are the beginning of, the ones in use
         if (c.ns && c.rebind && g.chance(1, 7)) s += std::string(" xmlns:p1=\"") + (g.chance(1, 4) ? NS1 : NS1ALT) + "\"";
         if (c.ns && g.chance(1, 20)) s += std::string(" xmlns=\"") + (g.chance(1, 2) ? NSD : "") + "\"";
         int kids = (depth >= c.maxDepth || budget <= 0) ? 0 : (int)g.below(c.maxFan + 1);
